@@ -37,7 +37,7 @@ type etok struct {
 	Name   string // prim: Uint32 …; sub: member key; fn: suffix expression; each: ranged expression
 	Kids   []etok
 	Pos    token.Pos
-	InCond bool // emitted under a Go-level condition of the generator
+	InCond bool   // emitted under a Go-level condition of the generator
 	Arg    string // sub: the non-constant part of the Go expression encoded from / decoded into ("" if constant)
 }
 
@@ -73,7 +73,7 @@ type emitWalker struct {
 	// isType reports whether a static type is (an implementation of) the signature Type interface
 	typeIface *types.Interface
 	depth     int
-	inline    bool // follow helper functions of the generator's package
+	inline    bool                      // follow helper functions of the generator's package
 	defs      map[types.Object]ast.Expr // local variables with exactly one definition (x := e) -> e
 }
 
